@@ -22,6 +22,9 @@ import (
 type Abs struct {
 	Live []int64 `json:"live"`
 	Ctr  int64   `json:"ctr"`
+	// OutOfKeyOrder: the records come out of the store (= are exported) in an order whose last element is not the
+	// highest id (families that share one counter across apps and are keyed by (app, id))
+	OutOfKeyOrder bool `json:"outOfKeyOrder"`
 }
 
 // absComp binds one abstract component of Genesis.tla (live ids + counter; Open / Close) to a real module.
@@ -59,7 +62,7 @@ var absComps = []absComp{
 			for _, v := range app.VaultKeeper.GetVaults(ctx) {
 				l = append(l, int64(v.Id))
 			}
-			return Abs{sorted(l), int64(app.VaultKeeper.GetIDForVault(ctx))}
+			return Abs{Live: sorted(l), Ctr: int64(app.VaultKeeper.GetIDForVault(ctx))}
 		},
 	},
 	{
@@ -79,7 +82,7 @@ var absComps = []absComp{
 			for _, v := range app.LockerKeeper.GetLockers(ctx) {
 				l = append(l, int64(v.LockerId))
 			}
-			return Abs{sorted(l), int64(app.LockerKeeper.GetIDForLocker(ctx))}
+			return Abs{Live: sorted(l), Ctr: int64(app.LockerKeeper.GetIDForLocker(ctx))}
 		},
 	},
 	{
@@ -99,7 +102,7 @@ var absComps = []absComp{
 			for _, v := range app.LendKeeper.GetAllLend(ctx) {
 				l = append(l, int64(v.ID))
 			}
-			return Abs{sorted(l), int64(app.LendKeeper.GetUserLendIDCounter(ctx))}
+			return Abs{Live: sorted(l), Ctr: int64(app.LendKeeper.GetUserLendIDCounter(ctx))}
 		},
 	},
 	{
@@ -126,7 +129,7 @@ var absComps = []absComp{
 				}
 			}
 			p, _ := app.LiquidityKeeper.GetPair(ctx, AppSwap, 1)
-			return Abs{sorted(l), int64(p.LastOrderId)}
+			return Abs{Live: sorted(l), Ctr: int64(p.LastOrderId)}
 		},
 	},
 }
